@@ -101,6 +101,7 @@ def norm(s):
     s = re.sub(r"\s+", " ", s).strip()
     s = re.sub(r"\s*([(),:<>&])\s*", r"\1", s)
     s = s.replace(",)", ")")
+    s = re.sub(r"^pub(\([^)]*\))?\s*", "", s)   # visibility is not part of the anchor
     return s
 
 
@@ -454,11 +455,15 @@ def build_unit(template_path, src_dir, verus_dir):
                 where = "%s:%s arm %s (lines %d-%d)" % (kv["file"], kv["fn"], kv["arm"], text.count("\n", 0, a) + 1, text.count("\n", 0, b) + 1)
             else:
                 params, tr = find_macro(text, mask, kv["macro"])
-                args = [x.strip() for x in kv["args"].split(",")]
-                # confirm the invocation exists in the file
-                inv = r"%s!\s*\(\s*%s\s*\)" % (re.escape(kv["macro"]), r"\s*,\s*".join(re.escape(x) for x in args))
-                if not re.search(inv, text):
-                    raise LostAnchor("invocation %s!(%s) not found" % (kv["macro"], kv["args"]))
+                # `args` names the invocation by its leading argument(s) (the function name); the remaining
+                # arguments are taken from the real invocation, so a changed operator is verified, not lost.
+                lead = [x.strip() for x in kv["args"].split(",")]
+                inv = r"%s!\s*\(\s*%s\s*(?:,([^()]*))?\)" % (re.escape(kv["macro"]), r"\s*,\s*".join(re.escape(x) for x in lead))
+                im = re.search(inv, text)
+                if not im:
+                    raise LostAnchor("invocation %s!(%s, ..) not found" % (kv["macro"], kv["args"]))
+                args = lead + ([x.strip() for x in im.group(1).split(",")] if im.group(1) else [])
+                kv["args"] = ",".join(args)
                 for prm, arg in zip(params, args):
                     tr = re.sub(r"\$%s\b" % re.escape(prm), arg, tr)
                 tm = code_mask(tr)
@@ -489,7 +494,7 @@ def falsify(text):
     if "/*@VACUITY*/" not in text:
         # no marker: cannot run the vacuity pass; make it fail loudly rather than pass silently
         return text + "\nverus!{ proof fn __vacuity_marker_missing() ensures false {} }\n"
-    return text.replace("/*@VACUITY*/", "false,")
+    return text.replace("/*@VACUITY*/", "false, /*@VACUITY-ON*/")
 
 
 if __name__ == "__main__":
